@@ -76,6 +76,10 @@ def cases(tier):
             continue
         for r in radii:
             out.append({"kind": "sphero", "pts": S, "r": r, "pl": pq[(i // 4 + radii.index(r)) % 8]})
+        tp = A.placements_tiny()
+        for j, r in enumerate(radii[1:]):
+            out.append({"kind": "sphero", "pts": S, "r": r, "pl": tp[(i // 24 + j) % len(tp)]})
+        out.append({"kind": "convex", "pts": S, "pl": tp[(i // 24) % len(tp)], "cls": "Polyhedron"})
     if not q:
         for i, S in enumerate(s5):
             if i % 40 == 0:
